@@ -656,6 +656,11 @@ fn check_graceful_not_early(sim: &Sim, what: &str) {
         return;
     }
     for s in &sim.o.slots_at_stop {
+        // a worker that has died since (its thread unwound) took its connections with it: there
+        // is nothing left that a graceful stop could wait for
+        if sh.workers.borrow()[*s].state == SlotState::Killed {
+            continue;
+        }
         let n = sh
             .conns
             .borrow()
